@@ -66,7 +66,7 @@ def cases(tier, seed):
                     try:
                         probe_q = N.make_request(version, action, GD.snake(rq[1]), "inner")
                         probe_s = N.make_result(version, action, GD.snake(rs[1]), "inner")
-                    except TypeError:
+                    except Exception:  # noqa: BLE001
                         continue
                     if N.contains_dataclass(dataclasses.asdict(probe_q) and [getattr(probe_q, f.name) for f in dataclasses.fields(probe_q)]) or \
                             N.contains_dataclass([getattr(probe_s, f.name) for f in dataclasses.fields(probe_s)]):
@@ -83,7 +83,7 @@ def body_factory(tier, seed):
             sreq, sresp = GD.snake(req), GD.snake(resp)
             try:
                 obj = N.make_request(version, action, sreq, as_dc)
-            except TypeError as e:
+            except Exception as e:  # noqa: BLE001
                 rep.violation("C06:construct-request:%s:%s" % (version, action),
                               "a schema-valid %s request cannot be built as call.%s: %s" % (action, action, e),
                               {"kind": "loopback", "version": version, "action": action, "request": req})
